@@ -292,6 +292,92 @@ fn cold_start<T: Real + Elem>(ctx: &mut Ctx, kind: Kind, n: usize, d: rustfft::F
     }
 }
 
+
+/// Thread history: what a thread computed before must not influence what it computes next.  Every instance is called on
+/// inputs in the subnormal range (the values most sensitive to the floating-point environment of the calling thread) twice:
+/// in a brand-new thread that does nothing else (the isolated call), and in a second thread that first runs every instance of
+/// the pool on ordinary data.  Both threads start from the default MXCSR, so that the comparison does not depend on what the
+/// harness's own main thread did earlier.
+fn thread_history<T: Real + Elem>(ctx: &mut Ctx, pls: &[Planned<T>]) {
+    if pls.is_empty() {
+        return;
+    }
+    let tiny: f64 = if T::NAME == "f32" { 1e-41 } else { 1e-311 };
+    let mut rng = Rng::new(ctx.seed ^ 0x5AC);
+    fn default_fp_env() {
+        #[cfg(target_arch = "x86_64")]
+        unsafe {
+            #[allow(deprecated)]
+            std::arch::x86_64::_mm_setcsr(0x1F80);
+        }
+    }
+    // the inputs are made in a thread with the default floating-point environment too: this (main) thread may itself have
+    // been left with flush-to-zero on by an earlier library call, and would then round the subnormal samples to zero
+    let seed = ctx.seed ^ 0x5AB;
+    let calls: Vec<CallPlan<T>> = std::thread::scope(|s| {
+        s.spawn(|| {
+            default_fp_env();
+            let mut rng = Rng::new(seed);
+            pls.iter()
+                .enumerate()
+                .map(|(i, pl)| {
+                    let k = 1 + i % 2;
+                    let x: Vec<Complex<T>> = (0..k * pl.n)
+                        .map(|_| {
+                            // subnormal magnitudes throughout (an ordinary value anywhere would swamp them in every output bin)
+                            let s = tiny * (1.0 + 200.0 * rng.unit());
+                            Complex { re: T::of_f64(s * (2.0 * rng.unit() - 1.0)), im: T::of_f64(s * (2.0 * rng.unit() - 1.0)) }
+                        })
+                        .collect();
+                    CallPlan { entry: crate::calls::ALL_ENTRIES[i % 4], k, x }
+                })
+                .collect()
+        })
+        .join()
+        .unwrap_or_default()
+    });
+    if calls.len() != pls.len() {
+        return;
+    }
+    let warm: Vec<CallPlan<T>> = pls
+        .iter()
+        .map(|pl| CallPlan { entry: Entry::Inplace, k: 1, x: gen_input::<T>("uniform", pl.n, 0, &mut rng) })
+        .collect();
+    let (isolated, after): (Vec<_>, Vec<_>) = std::thread::scope(|s| {
+        let h0 = s.spawn(|| {
+            default_fp_env();
+            pls.iter().zip(&calls).map(|(pl, c)| do_call(&*pl.fft, pl.adv, pl.n, c)).collect::<Vec<_>>()
+        });
+        let iso = h0.join().unwrap_or_default();
+        let h1 = s.spawn(|| {
+            default_fp_env();
+            for (pl, w) in pls.iter().zip(&warm) {
+                let _ = do_call(&*pl.fft, pl.adv, pl.n, w);
+            }
+            pls.iter().zip(&calls).map(|(pl, c)| do_call(&*pl.fft, pl.adv, pl.n, c)).collect::<Vec<_>>()
+        });
+        (iso, h1.join().unwrap_or_default())
+    });
+    if isolated.len() != pls.len() || after.len() != pls.len() {
+        return;
+    }
+    if std::env::var("RFV_DEBUG_HISTORY").is_ok() {
+        for i in 0..pls.len() {
+            eprintln!("history n={} in0={:e} iso[1]={:e} after[1]={:e}", pls[i].n, calls[i].x[0].re.to_f64(), isolated[i].1.get(1).map(|c| c.re.to_f64()).unwrap_or(-1.0), after[i].1.get(1).map(|c| c.re.to_f64()).unwrap_or(-1.0));
+        }
+    }
+    for (i, pl) in pls.iter().enumerate() {
+        let c = &calls[i];
+        let key = format!("history:{}:{}", pl.iid, i);
+        ctx.case(format!("history {} {} {}", pl.n, T::ELEM, pl.iid), true);
+        for (role, (panic, res), th) in [("ref", &isolated[i], "fresh"), ("check", &after[i], "used")] {
+            let cid = ctx.call_begin(pl.iid, c.entry, &c.x, if c.entry.two_buffers() { c.x.len() } else { 0 }, pl.adv[c.entry.scratch_index()], json!({"thread": th, "family": "subnormal", "k": c.k}));
+            let obs = if panic.is_none() { vec![json!({"kind": "hash"})] } else { vec![] };
+            ctx.call_end(cid, panic, obs, role, &key, hash2(res));
+        }
+    }
+}
+
 fn free_running<T: Real + Elem>(ctx: &mut Ctx, pls: &[Planned<T>], threads: usize, rounds: usize) {
     // the menu of calls, each with a sequential reference
     let mut menu: Vec<(usize, CallPlan<T>, String)> = Vec::new();
@@ -382,6 +468,7 @@ fn threads_for<T: Real + Elem>(ctx: &mut Ctx, item: &mut usize, given: &[Vec<(us
                 }
             }
             free_running(ctx, &pls, 16, rounds);
+            thread_history(ctx, &pls);
             for &n in chunk {
                 cold_start::<T>(ctx, kind, n, DIRS[(n + li) % 2]);
             }
